@@ -513,7 +513,13 @@ def gen_viewer_op(world, rng):
         return name, (lambda: dc.append(d)), None
     if name == "remove" and len(in_dc) > 1:
         d = rng.choice(in_dc)
-        return name, (lambda: dc.remove(d)), None
+
+        def upd_remove(ok, ret):
+            # a dataset that leaves the collection is taken away from the viewer, also when it comes back later
+            world.given = [x for x in world.given if x is not d]
+            world.lonely = [x for x in world.lonely if x.data is not d]
+            world.hidden = [x for x in world.hidden if x.data is not d]
+        return name, (lambda: dc.remove(d)), upd_remove
     if name == "new_group" and in_dc:
         d = rng.choice(in_dc)
         st = subset_state_for(d)
@@ -696,6 +702,14 @@ def gen_select(world, rng):
             setattr(obj, prop, other)
         return "select:" + tname, call, None
     choices = [c for c in helper.choices if not isinstance(c, ChoiceSeparator)]
+    if kind == "image" and tname.startswith("layer."):
+        # the image layer picker offers datetime attributes which the image artist cannot draw (TypeError in every
+        # later redraw): outside what the viewer can display, not selected
+        d0 = obj.layer.data if isinstance(obj.layer, Subset) else obj.layer
+        keep = [c for c in choices if c is None or attr_kind(d0, c) != "datetime"]
+        if len(keep) != len(choices):
+            world.ctx.count("image_layer_datetime_attribute_not_selected_out_of_domain")
+        choices = keep
     if not choices:
         return "noop", (lambda: None), None
     c = rng.choice(choices)
@@ -733,9 +747,20 @@ def run_viewer_history(ctx, kind, length):
             if in_block:
                 n = rng.randint(2, 3)
                 ctx.count("delay_blocks")
-                with world.dc.hub.delay_callbacks():
+                cm = world.dc.hub.delay_callbacks()
+                cm.__enter__()
+                try:
                     for _ in range(n):
                         names.append(apply_op(ctx, world, rng, trace))
+                finally:
+                    try:
+                        cm.__exit__(None, None, None)
+                    except Exception as e:
+                        # a listener raised while the queued messages were delivered
+                        world.after_exception = True
+                        world.exception_in = "delay_block_exit"
+                        ctx.count("op_raised:%s:delay_block_exit:%s" % (kind, type(e).__name__))
+                        trace.append(["delay_block_exit", "raised:" + type(e).__name__, str(e)[:120]])
                 name = "block(" + "+".join(sorted(set(x.split(":")[0] for x in names))) + ")"
                 step += n
             else:
